@@ -47,7 +47,7 @@ def main():
         meta["ran"].append({"cmd": "pinned suite on clean worktree / with change", "passed_clean": len(base), "passed_with_change": len(mut), "same_passing_ids": base == mut})
         meta["ran"].append({"cmd": f"demo on clean worktree", "exit": rc0})
         meta["ran"].append({"cmd": f"demo with change", "exit": rc1, "tail": o1[-400:]})
-        ok = base == mut and len(base) == 42 and rc0 == 0 and rc1 != 0
+        ok = base == mut and len(base) >= 42 and rc0 == 0 and rc1 != 0
         meta["confirmed"] = ok
     finally:
         sh(f"git -C /repo worktree remove --force {wt}")
